@@ -210,6 +210,12 @@ impl<'a> AnswerCheck<'a> {
         found
     }
 
+    /// Shape of the goal (below its quantifier prefix), part of every site: `hyp-` when the
+    /// prefix carries hypotheses, then atom / conj / not / eq / if.
+    pub fn shape(&self) -> String {
+        format!("{}{}", if self.pa.hyps.is_empty() { "" } else { "hyp-" }, goal_shape(&self.pa.body))
+    }
+
     pub fn check(&self, sol: &DSol) -> (Vec<Issue>, OracleInfo) {
         let mut issues = vec![];
         let mut info = OracleInfo::default();
@@ -225,12 +231,12 @@ impl<'a> AnswerCheck<'a> {
             match (sol, v) {
                 (DSol::NoSolution, Tri::True) => issues.push(Issue {
                     kind: "none-but-goal-true".into(),
-                    site: format!("{}/closed/{}", slv, self.class),
+                    site: format!("{}/closed/{}/{}", slv, self.class, self.shape()),
                     detail: "REF: goal is TRUE".into(),
                 }),
                 (DSol::Unique(_), Tri::False) => issues.push(Issue {
                     kind: "unique-but-goal-false".into(),
-                    site: format!("{}/closed/{}", slv, self.class),
+                    site: format!("{}/closed/{}/{}", slv, self.class, self.shape()),
                     detail: "REF: goal is FALSE".into(),
                 }),
                 _ => {}
@@ -246,7 +252,7 @@ impl<'a> AnswerCheck<'a> {
                 if let Some(w) = wit.first() {
                     issues.push(Issue {
                         kind: "none-but-solution-exists".into(),
-                        site: format!("{}/open/{}", slv, self.class),
+                        site: format!("{}/open/{}/{}", slv, self.class, self.shape()),
                         detail: format!("true witness {:?}", w.iter().map(ty_str).collect::<Vec<_>>()),
                     });
                 }
@@ -290,7 +296,7 @@ impl<'a> AnswerCheck<'a> {
                     if let Some(tuple) = self.false_instance(s, &pat, &mut info) {
                         issues.push(Issue {
                             kind: "unique-has-false-instance".into(),
-                            site: format!("{}/open/{}", slv, self.class),
+                            site: format!("{}/open/{}/{}", slv, self.class, self.shape()),
                             detail: format!(
                                 "instance {:?} of the unique answer is FALSE",
                                 tuple.iter().map(ty_str).collect::<Vec<_>>()
